@@ -348,7 +348,7 @@ fn c16_process_partial_contract(chans: usize, next_in: usize, next_out: usize, l
     std::mem::forget(store);
 }
 
-// @ob name=C16.VecResampler.forwards_unchanged props=C16 tier=quick kind=bounded fn=implement_resampler!(VecResampler) timeout=300 bound="the 13 forwarded methods, one per path; buffers of 0..=2 channels"
+// @ob name=C16.VecResampler.forwards_unchanged props=C16 tier=quick kind=bounded fn=implement_resampler!(VecResampler) timeout=600 bound="the 13 forwarded methods, one per path; buffers of 0..=2 channels"
 #[kani::proof]
 #[kani::unwind(5)]
 #[kani::solver(kissat)]
@@ -404,7 +404,7 @@ fn c16_vecresampler_forwards() {
     kani::cover!(which == 6);
 }
 
-// @ob name=C16.process.contract.cfg_a props=C16,C13,C04 tier=quick kind=bounded fn=Resampler::process timeout=300 bound="concrete shape: channels=2, input_frames_next=3, output_frames_next=4, supplied input lengths (2,0) in 2 channels; mask None or any contents with any length 0..=3, core result and probe index symbolic"
+// @ob name=C16.process.contract.cfg_a props=C16,C13,C04 tier=quick kind=bounded fn=Resampler::process timeout=600 bound="concrete shape: channels=2, input_frames_next=3, output_frames_next=4, supplied input lengths (2,0) in 2 channels; mask None or any contents with any length 0..=3, core result and probe index symbolic"
 #[kani::proof]
 #[kani::unwind(6)]
 #[kani::solver(kissat)]
@@ -412,15 +412,15 @@ fn c16_process_contract_a() {
     c16_process_contract(2, 3, 4, 2, 0, 2);
 }
 
-// @ob name=C16.process.contract.cfg_b props=C16,C13,C04 tier=quick kind=bounded fn=Resampler::process timeout=300 bound="concrete shape: channels=2, input_frames_next=4, output_frames_next=2, supplied input lengths (4,1) in 2 channels; mask None or any contents with any length 0..=3, core result and probe index symbolic"
+// @ob name=C16.process.contract.cfg_b props=C16 tier=quick kind=bounded fn=Resampler::process timeout=600 bound="concrete shape: channels=2, input_frames_next=3, output_frames_next=2, supplied input lengths (3,1) in 2 channels; mask None or any contents with any length 0..=3, core result and probe index symbolic"
 #[kani::proof]
 #[kani::unwind(6)]
 #[kani::solver(kissat)]
 fn c16_process_contract_b() {
-    c16_process_contract(2, 4, 2, 4, 1, 2);
+    c16_process_contract(2, 3, 2, 3, 1, 2);
 }
 
-// @ob name=C16.process.contract.cfg_c props=C16,C13,C04 tier=quick kind=bounded fn=Resampler::process timeout=300 bound="concrete shape: channels=1, input_frames_next=2, output_frames_next=3, supplied input lengths (5,0) in 1 channels; mask None or any contents with any length 0..=3, core result and probe index symbolic"
+// @ob name=C16.process.contract.cfg_c props=C16 tier=quick kind=bounded fn=Resampler::process timeout=600 bound="concrete shape: channels=1, input_frames_next=2, output_frames_next=3, supplied input lengths (5,0) in 1 channels; mask None or any contents with any length 0..=3, core result and probe index symbolic"
 #[kani::proof]
 #[kani::unwind(6)]
 #[kani::solver(kissat)]
@@ -428,7 +428,7 @@ fn c16_process_contract_c() {
     c16_process_contract(1, 2, 3, 5, 0, 1);
 }
 
-// @ob name=C16.process.contract.cfg_d props=C16,C13,C04 tier=quick kind=bounded fn=Resampler::process timeout=300 bound="concrete shape: channels=2, input_frames_next=1, output_frames_next=0, supplied input lengths (1,3) in 1 channels; mask None or any contents with any length 0..=3, core result and probe index symbolic"
+// @ob name=C16.process.contract.cfg_d props=C16 tier=quick kind=bounded fn=Resampler::process timeout=600 bound="concrete shape: channels=2, input_frames_next=1, output_frames_next=0, supplied input lengths (1,3) in 1 channels; mask None or any contents with any length 0..=3, core result and probe index symbolic"
 #[kani::proof]
 #[kani::unwind(6)]
 #[kani::solver(kissat)]
@@ -436,7 +436,7 @@ fn c16_process_contract_d() {
     c16_process_contract(2, 1, 0, 1, 3, 1);
 }
 
-// @ob name=C16.process.contract.cfg_e props=C16,C13,C04 tier=quick kind=bounded fn=Resampler::process timeout=300 bound="concrete shape: channels=0, input_frames_next=3, output_frames_next=3, supplied input lengths (0,0) in 0 channels; mask None or any contents with any length 0..=3, core result and probe index symbolic"
+// @ob name=C16.process.contract.cfg_e props=C16 tier=quick kind=bounded fn=Resampler::process timeout=600 bound="concrete shape: channels=0, input_frames_next=3, output_frames_next=3, supplied input lengths (0,0) in 0 channels; mask None or any contents with any length 0..=3, core result and probe index symbolic"
 #[kani::proof]
 #[kani::unwind(6)]
 #[kani::solver(kissat)]
@@ -444,7 +444,7 @@ fn c16_process_contract_e() {
     c16_process_contract(0, 3, 3, 0, 0, 0);
 }
 
-// @ob name=C16.process_partial_into_buffer.contract.cfg_a props=C16 tier=quick kind=bounded fn=Resampler::process_partial_into_buffer timeout=300 bound="concrete shape: channels=2, input_frames_next=3, output_frames_next=4, supplied input lengths (2,0) in 2 channels; mask None or any contents with any length 0..=3, core result and probe index symbolic"
+// @ob name=C16.process_partial_into_buffer.contract.cfg_a props=C16 tier=quick kind=bounded fn=Resampler::process_partial_into_buffer timeout=600 bound="concrete shape: channels=2, input_frames_next=3, output_frames_next=4, supplied input lengths (2,0) in 2 channels; mask None or any contents with any length 0..=3, core result and probe index symbolic"
 #[kani::proof]
 #[kani::unwind(6)]
 #[kani::solver(kissat)]
@@ -452,15 +452,15 @@ fn c16_process_partial_into_buffer_contract_a() {
     c16_process_partial_into_buffer_contract(2, 3, 4, 2, 0, 2);
 }
 
-// @ob name=C16.process_partial_into_buffer.contract.cfg_b props=C16 tier=quick kind=bounded fn=Resampler::process_partial_into_buffer timeout=300 bound="concrete shape: channels=2, input_frames_next=4, output_frames_next=2, supplied input lengths (4,1) in 2 channels; mask None or any contents with any length 0..=3, core result and probe index symbolic"
+// @ob name=C16.process_partial_into_buffer.contract.cfg_b props=C16 tier=quick kind=bounded fn=Resampler::process_partial_into_buffer timeout=600 bound="concrete shape: channels=2, input_frames_next=3, output_frames_next=2, supplied input lengths (3,1) in 2 channels; mask None or any contents with any length 0..=3, core result and probe index symbolic"
 #[kani::proof]
 #[kani::unwind(6)]
 #[kani::solver(kissat)]
 fn c16_process_partial_into_buffer_contract_b() {
-    c16_process_partial_into_buffer_contract(2, 4, 2, 4, 1, 2);
+    c16_process_partial_into_buffer_contract(2, 3, 2, 3, 1, 2);
 }
 
-// @ob name=C16.process_partial_into_buffer.contract.cfg_c props=C16 tier=quick kind=bounded fn=Resampler::process_partial_into_buffer timeout=300 bound="concrete shape: channels=1, input_frames_next=2, output_frames_next=3, supplied input lengths (5,0) in 1 channels; mask None or any contents with any length 0..=3, core result and probe index symbolic"
+// @ob name=C16.process_partial_into_buffer.contract.cfg_c props=C16 tier=quick kind=bounded fn=Resampler::process_partial_into_buffer timeout=600 bound="concrete shape: channels=1, input_frames_next=2, output_frames_next=3, supplied input lengths (5,0) in 1 channels; mask None or any contents with any length 0..=3, core result and probe index symbolic"
 #[kani::proof]
 #[kani::unwind(6)]
 #[kani::solver(kissat)]
@@ -468,7 +468,7 @@ fn c16_process_partial_into_buffer_contract_c() {
     c16_process_partial_into_buffer_contract(1, 2, 3, 5, 0, 1);
 }
 
-// @ob name=C16.process_partial_into_buffer.contract.cfg_d props=C16 tier=quick kind=bounded fn=Resampler::process_partial_into_buffer timeout=300 bound="concrete shape: channels=2, input_frames_next=1, output_frames_next=0, supplied input lengths (1,3) in 1 channels; mask None or any contents with any length 0..=3, core result and probe index symbolic"
+// @ob name=C16.process_partial_into_buffer.contract.cfg_d props=C16 tier=quick kind=bounded fn=Resampler::process_partial_into_buffer timeout=600 bound="concrete shape: channels=2, input_frames_next=1, output_frames_next=0, supplied input lengths (1,3) in 1 channels; mask None or any contents with any length 0..=3, core result and probe index symbolic"
 #[kani::proof]
 #[kani::unwind(6)]
 #[kani::solver(kissat)]
@@ -476,7 +476,7 @@ fn c16_process_partial_into_buffer_contract_d() {
     c16_process_partial_into_buffer_contract(2, 1, 0, 1, 3, 1);
 }
 
-// @ob name=C16.process_partial_into_buffer.contract.cfg_e props=C16 tier=quick kind=bounded fn=Resampler::process_partial_into_buffer timeout=300 bound="concrete shape: channels=0, input_frames_next=3, output_frames_next=3, supplied input lengths (0,0) in 0 channels; mask None or any contents with any length 0..=3, core result and probe index symbolic"
+// @ob name=C16.process_partial_into_buffer.contract.cfg_e props=C16 tier=quick kind=bounded fn=Resampler::process_partial_into_buffer timeout=600 bound="concrete shape: channels=0, input_frames_next=3, output_frames_next=3, supplied input lengths (0,0) in 0 channels; mask None or any contents with any length 0..=3, core result and probe index symbolic"
 #[kani::proof]
 #[kani::unwind(6)]
 #[kani::solver(kissat)]
@@ -484,7 +484,7 @@ fn c16_process_partial_into_buffer_contract_e() {
     c16_process_partial_into_buffer_contract(0, 3, 3, 0, 0, 0);
 }
 
-// @ob name=C16.process_partial.contract.cfg_a props=C16,C13 tier=quick kind=bounded fn=Resampler::process_partial timeout=300 bound="concrete shape: channels=2, input_frames_next=3, output_frames_next=4, supplied input lengths (2,0) in 2 channels; mask None or any contents with any length 0..=3, core result and probe index symbolic"
+// @ob name=C16.process_partial.contract.cfg_a props=C16,C13 tier=quick kind=bounded fn=Resampler::process_partial timeout=600 bound="concrete shape: channels=2, input_frames_next=3, output_frames_next=4, supplied input lengths (2,0) in 2 channels; mask None or any contents with any length 0..=3, core result and probe index symbolic"
 #[kani::proof]
 #[kani::unwind(6)]
 #[kani::solver(kissat)]
@@ -492,15 +492,15 @@ fn c16_process_partial_contract_a() {
     c16_process_partial_contract(2, 3, 4, 2, 0, 2);
 }
 
-// @ob name=C16.process_partial.contract.cfg_b props=C16,C13 tier=quick kind=bounded fn=Resampler::process_partial timeout=300 bound="concrete shape: channels=2, input_frames_next=4, output_frames_next=2, supplied input lengths (4,1) in 2 channels; mask None or any contents with any length 0..=3, core result and probe index symbolic"
+// @ob name=C16.process_partial.contract.cfg_b props=C16 tier=quick kind=bounded fn=Resampler::process_partial timeout=600 bound="concrete shape: channels=2, input_frames_next=3, output_frames_next=2, supplied input lengths (3,1) in 2 channels; mask None or any contents with any length 0..=3, core result and probe index symbolic"
 #[kani::proof]
 #[kani::unwind(6)]
 #[kani::solver(kissat)]
 fn c16_process_partial_contract_b() {
-    c16_process_partial_contract(2, 4, 2, 4, 1, 2);
+    c16_process_partial_contract(2, 3, 2, 3, 1, 2);
 }
 
-// @ob name=C16.process_partial.contract.cfg_c props=C16,C13 tier=quick kind=bounded fn=Resampler::process_partial timeout=300 bound="concrete shape: channels=1, input_frames_next=2, output_frames_next=3, supplied input lengths (5,0) in 1 channels; mask None or any contents with any length 0..=3, core result and probe index symbolic"
+// @ob name=C16.process_partial.contract.cfg_c props=C16 tier=quick kind=bounded fn=Resampler::process_partial timeout=600 bound="concrete shape: channels=1, input_frames_next=2, output_frames_next=3, supplied input lengths (5,0) in 1 channels; mask None or any contents with any length 0..=3, core result and probe index symbolic"
 #[kani::proof]
 #[kani::unwind(6)]
 #[kani::solver(kissat)]
@@ -508,7 +508,7 @@ fn c16_process_partial_contract_c() {
     c16_process_partial_contract(1, 2, 3, 5, 0, 1);
 }
 
-// @ob name=C16.process_partial.contract.cfg_d props=C16,C13 tier=quick kind=bounded fn=Resampler::process_partial timeout=300 bound="concrete shape: channels=2, input_frames_next=1, output_frames_next=0, supplied input lengths (1,3) in 1 channels; mask None or any contents with any length 0..=3, core result and probe index symbolic"
+// @ob name=C16.process_partial.contract.cfg_d props=C16 tier=quick kind=bounded fn=Resampler::process_partial timeout=600 bound="concrete shape: channels=2, input_frames_next=1, output_frames_next=0, supplied input lengths (1,3) in 1 channels; mask None or any contents with any length 0..=3, core result and probe index symbolic"
 #[kani::proof]
 #[kani::unwind(6)]
 #[kani::solver(kissat)]
@@ -516,7 +516,7 @@ fn c16_process_partial_contract_d() {
     c16_process_partial_contract(2, 1, 0, 1, 3, 1);
 }
 
-// @ob name=C16.process_partial.contract.cfg_e props=C16,C13 tier=quick kind=bounded fn=Resampler::process_partial timeout=300 bound="concrete shape: channels=0, input_frames_next=3, output_frames_next=3, supplied input lengths (0,0) in 0 channels; mask None or any contents with any length 0..=3, core result and probe index symbolic"
+// @ob name=C16.process_partial.contract.cfg_e props=C16 tier=quick kind=bounded fn=Resampler::process_partial timeout=600 bound="concrete shape: channels=0, input_frames_next=3, output_frames_next=3, supplied input lengths (0,0) in 0 channels; mask None or any contents with any length 0..=3, core result and probe index symbolic"
 #[kani::proof]
 #[kani::unwind(6)]
 #[kani::solver(kissat)]
